@@ -459,3 +459,104 @@ func TestC13Text(t *testing.T) {
 		}
 	})
 }
+
+
+// validStateBlob exports the crypto state of an established session (B's side of a pair that exchanged
+// a cleartext prefix and n protected messages each way); withAddr also records a peer address.
+func validStateBlob(salt uint32, withAddr bool) ([]byte, error) {
+	p := kit.NewPair()
+	if err := p.ClearExchange(0, [][]byte{kit.Pattern(9, salt)}); err != nil {
+		return nil, err
+	}
+	if err := p.SetKey(kit.Pattern(32, salt+1)); err != nil {
+		return nil, err
+	}
+	if withAddr {
+		p.B.SetPeerAddr("<192.0.2.7:9618?sock=abc&alias=verif.example>")
+	}
+	for i := 0; i < int(salt%3)+1; i++ {
+		if err := p.A.SendMessage(kit.Bg, []byte("ping")); err != nil {
+			return nil, err
+		}
+		if _, err := p.B.ReceiveCompleteMessage(kit.Bg); err != nil {
+			return nil, err
+		}
+		if err := p.B.SendMessage(kit.Bg, []byte("pong")); err != nil {
+			return nil, err
+		}
+		if _, err := p.A.ReceiveCompleteMessage(kit.Bg); err != nil {
+			return nil, err
+		}
+	}
+	return p.B.ExportCryptoState()
+}
+
+// TestC13StateBlobs: structure-aware hostile session-state blobs. Every truncation of valid blobs, every
+// single-byte replacement by 9 substitutes (so every length prefix is bumped by +-1, +-2, to 0 and to
+// 0xff), and every truncation combined with a bump of the last bytes.
+func TestC13StateBlobs(t *testing.T) {
+	bad := 0
+	n := 0
+	for bi := 0; bi < kit.Scale(4, 12); bi++ {
+		blob, err := validStateBlob(uint32(kit.Seed())*17+uint32(bi), bi%2 == 1)
+		if err != nil {
+			t.Fatalf("C13 harness: cannot export a blob: %v", err)
+		}
+		try := func(note string, data []byte) {
+			n++
+			c := Case{Surface: "cryptoblob", Note: note}
+			report(t, c, data, check("cryptoblob", 0, data, true), &bad)
+		}
+		for l := 0; l <= len(blob); l++ {
+			try(fmt.Sprintf("valid %d-byte blob truncated to %d", len(blob), l), blob[:l:l])
+			// the same prefix inside a larger buffer: reading past the declared end must not be possible either
+			try(fmt.Sprintf("valid %d-byte blob truncated to %d (spare capacity behind it)", len(blob), l), blob[:l])
+		}
+		for off := 0; off < len(blob); off++ {
+			b := blob[off]
+			for _, x := range []byte{0, 1, 2, 0x7f, 0x80, 0xff, b + 1, b - 1, b + 2} {
+				if x == b {
+					continue
+				}
+				mb := append([]byte(nil), blob...)
+				mb[off] = x
+				try(fmt.Sprintf("byte %d of a valid %d-byte blob set to %#x", off, len(blob), x), mb)
+				if off >= len(blob)-80 {
+					for cut := 1; cut <= 3; cut++ {
+						try(fmt.Sprintf("byte %d set to %#x and %d bytes cut off", off, x, cut), mb[:len(mb)-cut:len(mb)-cut])
+					}
+				}
+			}
+		}
+	}
+	ev.Count("state_blob_cases", int64(n))
+	ev.Exhaustive("session-state blobs: every truncation (exact and with spare capacity), 9 substitutes of every byte, and the last 80 bytes' substitutes combined with 1-3 bytes cut off")
+}
+
+
+// TestC13KeyExchange: a server that completes CLAIMTOBE and then announces a wrapped session key of a
+// hostile length (the client's exchangeKey reads a peer-chosen length before anything is authenticated
+// by a key). Deterministic: every hostile integer x 3 framings, in each of the length-like fields.
+func TestC13KeyExchange(t *testing.T) {
+	bad := 0
+	for _, h := range hostileInts {
+		for field := 0; field < 4; field++ {
+			for _, fs := range []int{16384, 100, 7} {
+				var ad, bm, ack, kx kit.MsgBuf
+				ad.ClassAd(serverAdExprs("CLAIMTOBE", 0), "", "")
+				bm.Int(methodBits["CLAIMTOBE"])
+				ack.Int(1)
+				v := []int64{32, 3, 0, 40} // keyLength, protocol, duration, inputLen
+				v[field] = h
+				kx.Int(1).Int(v[0]).Int(v[1]).Int(v[2]).Int(v[3]).Raw(kit.Pattern(40, 1))
+				data := append(append(append(ad.Frames(fs), bm.Frame()...), ack.Frame()...), kx.Frames(fs)...)
+				c := Case{Surface: "client", Note: fmt.Sprintf("key-exchange message with field %d = %d", field, h)}
+				report(t, c, data, check("client", 0, data, true), &bad)
+				if bad > 0 {
+					return // a length that large may not be survivable twice
+				}
+			}
+		}
+	}
+	ev.Exhaustive("13 hostile integers x 4 fields of the server's key-exchange message x 3 framings")
+}
